@@ -167,6 +167,9 @@ def fault_case(case, part):
     path = os.path.join(readermachine.tmpdir(), "faulty_%d%s" % (os.getpid(), suffix))
     with open(path, "wb") as binary:
         binary.write(content)
+    if fmt in ("ods", "excel") and readermachine.archive_still_readable(path):
+        part.note("container faults that left the archive fully readable (not judged)")
+        return
     extra = [("encoding", fault["encoding"])] if "encoding" in fault else []
     for mode in MODES:
         cid = readermachine.make_cid(dict(config, extra=extra), decls)
